@@ -118,6 +118,16 @@ CHECKS.update({
     ),
 })
 
+CHECKS.update({
+    "C07": dict(
+        engine="E1+E2 + descriptor history driver",
+        category="exploration",
+        text="Generated histories of descriptor-creating operations (regular and direct), explicit closes and drops on 1..8-entry rings; a close ledger fed by CLOSE SQEs, REGISTER_FILES_UPDATE(-1) and the interposed close(2) must show exactly one close per owned descriptor through a path matching its kind, no foreign close, never 0-2; every descriptor the simulated kernel returns must be wrapped by exactly one AsyncFd of the requested kind and number.",
+        design_ref="5/C07",
+        technique="stateful model-based property testing with a close ledger (simulated kernel + libc close interposition)",
+    ),
+})
+
 NOT_YET = {
 }
 
